@@ -9,6 +9,7 @@ import (
 	"fmt"
 	"io"
 	"os"
+	"strings"
 	"sync"
 	"syscall"
 
@@ -122,6 +123,10 @@ func (r *recorder) after(name string, write bool, args []any, rets []any) {
 			if mb, ok := rets[0].(*db.Mailbox); ok && mb != nil {
 				e.Args = []string{fmt.Sprint(uint64(mb.ID))}
 			}
+		case "CreateMailboxIfNotExists", "GetOrCreateMailboxAlt":
+			e.Args = []string{"name:" + strings.Join(args[0].(imap.Mailbox).Name, args[1].(string))}
+		case "GetOrCreateMailbox":
+			e.Args = []string{"name:" + args[1].(string)}
 		case "DeleteMailboxWithRemoteID", "RenameMailboxWithRemoteID":
 			e.Args = []string{"rid:" + string(args[0].(imap.MailboxID))}
 		case "SetMailboxSubscribed", "UpdateRemoteMailboxID", "SetMailboxUIDValidity":
